@@ -1,8 +1,8 @@
 package world
 
 import (
-	"errors"
 	"context"
+	"errors"
 
 	"git.defalsify.org/vise.git/db"
 	"git.defalsify.org/vise.git/lang"
